@@ -3,6 +3,7 @@
 mod bufpool;
 mod cancel;
 mod childproto;
+mod datagrams;
 mod fsmodel;
 mod kutil;
 mod lifecycle;
@@ -31,6 +32,7 @@ fn main() {
     scenarios.extend(smoke::scenarios());
     scenarios.extend(bufpool::scenarios());
     scenarios.extend(cancel::scenarios());
+    scenarios.extend(datagrams::scenarios());
     scenarios.extend(fsmodel::scenarios());
     scenarios.extend(lifecycle::scenarios());
     scenarios.extend(opsmix::scenarios());
